@@ -9,7 +9,7 @@ E2 = "stateless exploration of all schedules of the real goroutines within a dev
 # id -> (engine, category, technique, level text, level note, design ref)
 CHECKS = {
  "C01": ("seq", "model_checking", "explicit-state BFS + exhaustive families vs reference move generator",
-   "Every node of BFS closures from ~45 tagged seeds and of completely enumerated families (all K+X v K placements, castling under every single attacker, e.p. x king x slider, promotion fronts, collinear pins) has its legal-move set and move metadata compared with an independent mailbox move generator that is itself anchored to published perft counts; implementation perft is compared with the published counts too.",
+   "Every node of BFS closures from ~45 tagged seeds and of completely enumerated families (all K+X v K placements, castling under every single attacker, e.p. x king x slider, promotion fronts, collinear pins) has its legal-move set and move metadata compared with an independent mailbox move generator that is itself anchored to published perft counts; implementation perft is compared with the published counts too. At the engine's door (Engine.Move with text) every origin/destination pair of a legal move with every promotion suffix is accepted exactly when legal, and then leads to the reference successor (promotion, corner and en-passant families).",
    "Trusts the reference generator (validated against published perft numbers in every run) and the bounds: BFS depth, family definitions.", "DESIGN.md §5 C01"),
  "C02": ("seq", "model_checking", "explicit-state BFS over (position, move) pairs vs reference successor",
    "Every (node, legal move) pair of the C01 spaces: successor placement/rights/e.p. equals the reference Make, all redundant views (square lookup, piece/colour/occupancy sets, rotated boards, attack queries for 2x64 squares) agree, FEN agrees, parent value untouched. Chains are covered because every BFS node was produced by the implementation's own Move. Six odd placements the decoder accepts although no game reaches them (several kings of one colour, none, a board full of queens) and every successor to depth 2 the implementation produces from them: all views must be self-consistent there too.",
